@@ -86,7 +86,5 @@ CommentsAreNotTokens ==
     /\ r.e = ""
     /\ r.t = << [k |-> "tag", s |-> <<116>>], [k |-> "val", s |-> ValZ] >>
 
-(* the lexer never loses or invents characters: the characters of all tokens, in order, *)
-(* are a subsequence of the text                                                        *)
 TypeOK == Len(s) <= MaxLen
 =============================================================================
